@@ -183,7 +183,8 @@ static void dict_cases(uint64_t *unit)
 					int ok = 1;
 					/* variant 0: set_dict(whole dictionary); 1: set_dict(last 32 KiB only); 2: process_dict + reset_dict */
 					for (int var = 0; var < 3 && ok; var++) {
-						struct isal_zstream *s = g_alloc(sizeof *s, G_END);
+						/* recycled objects start directly behind an inaccessible page: a look-back in front of the retained history faults */
+						struct isal_zstream *s = g_alloc(sizeof *s, (di + dv + level + hw) % 2 ? G_START : G_END);
 						uint8_t *lb = level ? g_alloc(lvl_default[level], G_END) : NULL;
 						uint8_t *din = g_alloc(var == 1 ? efflen : dl, G_END);
 						memcpy(din, var == 1 ? eff : DICT, var == 1 ? efflen : dl);
@@ -193,9 +194,22 @@ static void dict_cases(uint64_t *unit)
 						int r = -1000, rd = -1000;
 						snprintf(key, sizeof key, "dict len=%d data=%s level=%d hist_bits=%d%s cpu=%s via=%s", dl, dv == 0 ? "tail4" : dv == 1 ? "tail300" : dv == 2 ? "tail32768" : "only-before-window", level,
 							 hbits, hlate ? "(set after the dictionary call)" : "", cpu_level_name[cpus[ci]], var == 0 ? "set_dict" : var == 1 ? "set_dict(last 32K)" : "process_dict+reset_dict");
+						/* every other case the object is not fresh: it first compressed a short stream with a 512-byte window and was then
+						 * recycled with isal_deflate_reset (window-dependent state of the earlier stream must not survive) */
+						int recycled = (di + dv + level + hw) % 2;
 						if (V_TRY()) {
 							isal_deflate_init(s);
 							s->level = level; s->level_buf = lb; s->level_buf_size = level ? lvl_default[level] : 0;
+							if (recycled) {
+								static uint8_t junk_in[600], junk_out[2000];
+								memset(junk_in, 'q', sizeof junk_in);
+								s->hist_bits = 9;
+								s->next_in = junk_in; s->avail_in = sizeof junk_in; s->end_of_stream = 1;
+								s->next_out = junk_out; s->avail_out = sizeof junk_out;
+								isal_deflate(s);
+								isal_deflate_reset(s);
+								s->hist_bits = 0;
+							}
 							if (!hlate)
 								s->hist_bits = hbits;
 							if (var < 2)
@@ -308,6 +322,42 @@ static void dict_cases(uint64_t *unit)
 							nfail++;
 						}
 						inflateEnd(&z);
+					}
+					/* a foreign zlib stream that ANNOUNCES its preset dictionary (FDICT + DICTID, made by zlib's deflateSetDictionary over the
+					 * whole dictionary): isal_inflate in ISAL_ZLIB mode must stop with ISAL_NEED_DICT, accept the same dictionary through
+					 * isal_inflate_set_dict and then deliver the data */
+					if (hw == 0 && level == 0) {
+						z_stream z;
+						memset(&z, 0, sizeof z);
+						if (deflateInit(&z, 6) != Z_OK || deflateSetDictionary(&z, DICT, dl) != Z_OK)
+							v_broken("zlib deflateSetDictionary");
+						z.next_in = IN; z.avail_in = len; z.next_out = BACK; z.avail_out = 2 * len + 200;
+						if (deflate(&z, Z_FINISH) != Z_STREAM_END)
+							v_broken("zlib deflate with dictionary");
+						size_t zl = z.total_out;
+						deflateEnd(&z);
+						struct inflate_state *st = g_alloc(sizeof *st, G_END);
+						uint8_t *bo = g_alloc(len, G_END);
+						int r1 = -1000, rd = -1000, r2 = -1000;
+						if (V_TRY()) {
+							isal_inflate_init(st);
+							st->crc_flag = ISAL_ZLIB;
+							st->next_in = BACK; st->avail_in = zl; st->next_out = bo; st->avail_out = len;
+							r1 = isal_inflate(st);
+							if (r1 == ISAL_NEED_DICT) {
+								rd = isal_inflate_set_dict(st, DICT, dl);
+								if (rd == ISAL_DECOMP_OK)
+									r2 = isal_inflate(st);
+							}
+							V_END();
+						}
+						snprintf(key, sizeof key, "dict-inflate zlib stream with FDICT, dict len=%d data-variant=%d cpu=%s", dl, dv, cpu_level_name[cpus[ci]]);
+						if (r1 != ISAL_NEED_DICT || rd != ISAL_DECOMP_OK || r2 != ISAL_DECOMP_OK || st->block_state != ISAL_BLOCK_FINISH || st->total_out != len || memcmp(bo, IN, len)) {
+							v_violation(key, "isal_inflate=%d (expected ISAL_NEED_DICT), isal_inflate_set_dict=%d, isal_inflate=%d, state %d, %u of %zu bytes", r1, rd, r2, st->block_state, st->total_out, len);
+							nfail++;
+						}
+						g_reset();
+						v_count("zlib_fdict_streams", 1);
 					}
 					v_nontrivial(v_mix(di * 16 + dv, level * 8 + ci + 64 * hw));
 					} /* hw */
